@@ -14,9 +14,10 @@ class NxProxy:
     """Stands in for the `nx` module inside teaal.ir.flow_graph: topological_sort is Kahn's
     algorithm choosing among the ready nodes with the unit's PRNG; everything else is networkx."""
 
-    def __init__(self, real, rng):
+    def __init__(self, real, rng, strategy="random"):
         self._real = real
         self._rng = rng
+        self._strategy = strategy
         self.picks = []
         self.choices = 0
 
@@ -27,10 +28,32 @@ class NxProxy:
         indeg = {n: d for n, d in G.in_degree()}
         ready = [n for n in G.nodes if indeg[n] == 0]
         out = []
+        # targeted strategies: one node of the graph is scheduled as early ("early") or as late ("late") as its
+        # dependences allow; a lost edge into / out of that node then shows as a use before its definition
+        favoured = None
+        kind = self._strategy
+        if kind in ("early", "late") and G.number_of_nodes():
+            nodes = list(G.nodes)
+            target = nodes[self._rng.randrange(len(nodes))]
+            if kind == "early":
+                favoured = set(self._real.ancestors(G, target)) | {target}
+            else:
+                favoured = set(nodes) - (set(self._real.descendants(G, target)) | {target})
         while ready:
-            i = self._rng.randrange(len(ready)) if len(ready) > 1 else 0
             if len(ready) > 1:
                 self.choices += 1
+                if kind == "lifo":
+                    i = len(ready) - 1
+                elif kind == "fifo":
+                    i = 0
+                elif favoured is not None:
+                    fav = [j for j, n in enumerate(ready) if n in favoured]
+                    pool = fav or list(range(len(ready)))
+                    i = pool[self._rng.randrange(len(pool))]
+                else:
+                    i = self._rng.randrange(len(ready))
+            else:
+                i = 0
             self.picks.append(i)
             n = ready.pop(i)
             out.append(n)
@@ -155,10 +178,12 @@ def c10_unit(args):
     inputs = args.get("inputs") or []
     for t in range(args.get("tiebreaks", 0)):
         rng = random.Random(args["tb_seed"] * 1000003 + t)
-        proxy = NxProxy(real_nx, rng)
+        # stream 0: newest-first, stream 1: oldest-first, then alternating random / early(target) / late(target)
+        strategy = "lifo" if t == 0 else "fifo" if t == 1 else ("random", "early", "late")[t % 3]
+        proxy = NxProxy(real_nx, rng, strategy)
         fgmod.nx = proxy
         try:
-            rec = {"stream": t}
+            rec = {"stream": t, "strategy": strategy}
             try:
                 for i, g, order, lo in _flow_graphs(yaml_text, mode):
                     probs = check_order(g, order, lo)
@@ -184,7 +209,7 @@ def c10_unit(args):
                         rec["outputs"] = {o: d["status"] for o, d in rep.get("outputs", {}).items()}
                         ref, _, _ = units.execute(text, spec, inputs[0], mode)
                         rec["reference_order_ok"] = units.run_ok(ref)
-            if len(rec) > 1:
+            if len(rec) > 2:
                 rec["picks"] = proxy.picks[:400]
                 out["layer2"].append(rec)
         finally:
